@@ -298,6 +298,13 @@ func TestVerif_C16(t *testing.T) {
 						frames = append(frames, &pFrame{Clear: true, Seq: -1})
 					}
 				}
+				badFirst := rng.Chance(50)
+				if badFirst {
+					// the very first frame of the connection is rejected: there is still no frame to show
+					frames[0].Pix[5][5] = 0
+					frames[0].Bad = true
+					c.Count("connections_starting_with_a_bad_frame", 1)
+				}
 				allFrames = append(allFrames, frames)
 				r, err := prepareConn(scratch, cfg, cam)
 				if err != nil {
@@ -353,6 +360,21 @@ func TestVerif_C16(t *testing.T) {
 						atomic.StoreInt32(&lg.inFrame, 1)
 						atomic.AddInt64(&lg.clock, 1)
 					case "conn.frame.processed":
+						if badFirst && cur == first {
+							// rejected first frame: nothing has completed on this connection yet
+							atomic.StoreInt32(&lg.inFrame, 0)
+							atomic.AddInt64(&lg.clock, 1)
+							done := make(chan struct{})
+							select {
+							case handshake <- done:
+								select {
+								case <-done:
+								case <-time.After(5 * time.Second):
+								}
+							default:
+							}
+							break
+						}
 						atomic.StoreInt64(&lg.lastProc, cur)
 						atomic.AddInt64(&lg.connProc, 1)
 						atomic.StoreInt32(&lg.inFrame, 0)
@@ -404,7 +426,7 @@ func TestVerif_C16(t *testing.T) {
 				if r.Err != io.EOF {
 					c.Violation("frame-loop-disturbed", "", fmt.Sprintf("connection %d: handleConn returned %v (write error %v)", cn, r.Err, r.WriteErr))
 				}
-				if got := r.Hooks.counts["conn.frame.processed"]; got != framesPerConn {
+				if got := r.Hooks.counts["conn.frame.processed"]; got != framesPerConn { // (bad frames pass the hook too)
 					c.Violation("frame-loop-stalled", "", fmt.Sprintf("connection %d: %d of %d frames processed", cn, got, framesPerConn))
 				}
 			}
